@@ -16,7 +16,7 @@ THEOREMS = [NS + t for t in (
     'C11_inter_comm', 'C11_union_comm', 'C11_inter_idem', 'C11_union_idem', 'C11_inter_assoc', 'C11_union_assoc',
     'C11_sheet_rule', 'C11_comm_sheets', 'C11_assoc_sheets', 'C11_union_assoc_all_sheets',
     'C11_inter_assoc_clash_witness', 'C11_covers_bounded', 'C11_inter_spec_unbounded', 'C11_inter_cells_unbounded', 'C11_bounded_not_unbounded', 'C11_unbounded_side',
-    'C11_operand_assoc', 'C11_offset_range', 'C11_offset_period', 'C11_offset_add', 'C11_offset_zero',
+    'C11_operand_assoc', 'C11_operand_assoc_sheets', 'C11_r1c1_abs_range', 'C11_offset_range', 'C11_offset_period', 'C11_offset_add', 'C11_offset_zero',
     'C11_offset_wrap_boundary')]
 DESIGN_REF = 'DESIGN.md §7 C11'
 RULE = ('ops on AddressRange/AddressCell public API: parse (A1, $, R1C1 absolute/relative with every anchor on the '
@@ -32,8 +32,9 @@ ASSUMPTIONS = [
     'structured references and defined names are observed only as "no such table / name" (a workbook-less cell)',
     'AddressMultiAreaRange is not modelled; derived address objects (AddressRange(obj, sheet=…), operator results, '
     'offsets) are values of the model, whatever was called on the source object before (op hist)',
-    'operator-level associativity (C11_operand_assoc) is stated for one sheet; the Rect-level laws cover every '
-    'sheet qualification (C11_comm_sheets, C11_assoc_sheets, C11_union_assoc_all_sheets)',
+    'relative R1C1 range forms (R[1]C[1]:R[2]C[2], R[1]:R[2]) are checked by correspondence only; absolute R1C1 ranges '
+    'are proved (C11_r1c1_abs_range); operator-level associativity is proved for every sheet qualification '
+    '(C11_operand_assoc_sheets)',
 ]
 TRUSTED = ['modelled, not verified: Python re (ABSOLUTE_RE, R1C1_RANGE_RE, TABLE_REF_RE), str.split/replace, '
            'openpyxl get_column_letter / column_index_from_string / quote_sheetname']
